@@ -221,6 +221,60 @@ def run_seed(repo_root, seed):
         shutil.rmtree(tmp, ignore_errors=True)
 
 
+def run_benign(repo_root, name, prop):
+    """A behaviour-preserving refactoring written by an independent sub-agent: the check must not report a violation
+    (exit 0; exit 2 = undecidable is tolerated and recorded)."""
+    d = os.path.join(VERIF, "benign", name)
+    tmp = _scratch()
+    try:
+        dst = os.path.join(tmp, "repo")
+        shutil.copytree(os.path.join(repo_root, "gaftools"), os.path.join(dst, "gaftools"), ignore=shutil.ignore_patterns("__pycache__"))
+        if os.path.isdir(os.path.join(repo_root, "docs")):
+            shutil.copytree(os.path.join(repo_root, "docs"), os.path.join(dst, "docs"))
+        p = subprocess.run(["patch", "-p1", "-s", "-f", "-i", os.path.join(d, "patch.diff")], cwd=dst, capture_output=True, text=True)
+        if p.returncode != 0:
+            return {"prop": prop, "name": "benign:" + name, "kind": "twin", "status": "n/a", "why": "patch no longer applies"}
+        env = dict(os.environ, GV_EVIDENCE_DIR=os.path.join(tmp, "ev"), PYTHONDONTWRITEBYTECODE="1")
+        q = subprocess.run([PY, "-m", "gv", "check", prop, "--tier", "quick", "--repo", dst], cwd=VERIF, capture_output=True, text=True, env=env)
+        return {"prop": prop, "name": "benign:" + name, "kind": "twin", "status": "ok" if q.returncode in (0, 2) else "MISS", "exit": q.returncode, "rules": sorted(set(re.findall(r"rule (R[\d.]+)", q.stdout))), "out": q.stdout[-400:] if q.returncode == 1 else ""}
+    finally:
+        shutil.rmtree(tmp, ignore_errors=True)
+
+
+# which properties look at which source files (a benign patch is run against the properties that read the files it touches)
+FILE_PROPS = {
+    "gaftools/conversion.py": ["C01", "C02", "C03", "C04", "C16"],
+    "gaftools/utils.py": ["C01", "C02", "C03", "C07", "C09", "C14", "C16", "C17"],
+    "gaftools/gaf.py": ["C02", "C04", "C12", "C16", "C17", "C19", "C20"],
+    "gaftools/gfa.py": ["C03", "C06", "C07", "C09", "C12", "C14", "C15", "C17"],
+    "gaftools/cli/view.py": ["C01", "C02", "C03", "C04", "C05", "C17"],
+    "gaftools/cli/index.py": ["C03", "C04", "C17"],
+    "gaftools/cli/sort.py": ["C08", "C09", "C10", "C17"],
+    "gaftools/cli/realign.py": ["C11", "C12", "C13", "C16"],
+    "gaftools/cli/order_gfa.py": ["C06", "C07", "C18"],
+    "gaftools/cli/stat.py": ["C19"],
+    "gaftools/cli/phase.py": ["C16", "C20"],
+    "gaftools/cli/find_path.py": ["C14"],
+}
+
+
+def benign_jobs(repo_root, only):
+    bd = os.path.join(VERIF, "benign")
+    out = []
+    if not os.path.isdir(bd):
+        return out
+    for name in sorted(os.listdir(bd)):
+        pf = os.path.join(bd, name, "patch.diff")
+        if not os.path.isfile(pf):
+            continue
+        files = re.findall(r"^\+\+\+ b/(\S+)", open(pf).read(), flags=re.M)
+        props = sorted({p for f in files for p in FILE_PROPS.get(f, [])})
+        for p in props:
+            if only is None or p == only:
+                out.append(("b", (repo_root, name, p)))
+    return out
+
+
 def battery(repo_root, only=None, jobs=16):
     jobs_list = []
     for prop, name, rel, old, new in BREAK:
@@ -234,8 +288,9 @@ def battery(repo_root, only=None, jobs=16):
         for seed in sorted(os.listdir(sd)):
             if os.path.isdir(os.path.join(sd, seed)) and (only is None or seed.startswith(only + "-")):
                 jobs_list.append(("s", (repo_root, seed)))
+    jobs_list += benign_jobs(repo_root, only)
     with ThreadPoolExecutor(jobs) as ex:
-        res = list(ex.map(lambda j: run_variant(*j[1]) if j[0] == "v" else run_seed(*j[1]), jobs_list))
+        res = list(ex.map(lambda j: run_variant(*j[1]) if j[0] == "v" else (run_seed(*j[1]) if j[0] == "s" else run_benign(*j[1])), jobs_list))
     return res
 
 
